@@ -50,7 +50,13 @@ pub fn gen_call(rng: &mut Rng, id: String, shape: Shape, script: &mut Script) ->
             })
             .collect();
     }
-    CallSpec { id, shape, req_msgs, req_meta: gen_meta(rng, 4, false), req_pend: (0..n + 1).map(|_| rng.below(3) as u8).collect(), req_gaps_ms: vec![], timeout: None }
+    // an interactive caller: reply i answers request i, request i+1 is sent only after reply i was read
+    let mut pingpong = None;
+    if shape == Shape::Bidi && n >= 1 && !script.msgs.is_empty() && rng.chance(1, 3) {
+        script.reads_before = (0..script.msgs.len()).map(|i| if i < n { 1 } else { 0 }).collect();
+        pingpong = Some(script.msgs.len());
+    }
+    CallSpec { id, shape, req_msgs, req_meta: gen_meta(rng, 4, false), req_pend: (0..n + 1).map(|_| rng.below(3) as u8).collect(), req_gaps_ms: vec![], timeout: None, pingpong }
 }
 
 pub fn script_json(s: &Script) -> serde_json::Value {
@@ -72,6 +78,7 @@ pub fn run(cfg: &RunCfg) -> Ctx {
     all.floor("class.error_after_last_message", 5);
     all.floor("class.trailers_only", 5);
     all.floor("transport.splits", 100);
+    all.floor("call.interactive_pingpong", 20);
     all.floor("transport.merges", 20);
     all.floor("cfg.server_compresses", 20);
     all.floor("cfg.client_compresses", 20);
@@ -87,6 +94,9 @@ fn loop_case(rng: &mut Rng, ctx: &mut Ctx, idx: u64) {
     let shape = *rng.pick(&SHAPES);
     let mut script = gen_script(rng, shape, false);
     let mut spec = gen_call(rng, format!("c{}", idx), shape, &mut script);
+    if spec.pingpong.is_some() {
+        ctx.count("call.interactive_pingpong");
+    }
     let mut max_piece = *rng.pick(&[1usize, 3, 7, 64, 4096, 1 << 20]);
     // a few calls carry a message above the 4 MiB default receive limit, with the receiving side
     // configured to take it; most of those go through a clone of the configured client
